@@ -247,9 +247,171 @@ theorem denyReq_status_as_translated (name : Nat → String) (hinj : Function.In
     have := (h.1 ha').1
     simp [ha', this, Resp.code]
 
+/-! ## `sessionHandler` as translated today -/
+
+/-- justifies the translator's use of `HasRequiredClaims(x) ⇒ x.ExpiresAt ≠ nil` (spec `nonNilWhenTrue`): proved of the
+    translated function itself -/
+theorem hasRequiredClaims_exp_nonNil (w : Go.World) (tok : Gen.permission.Token)
+    (h : Gen.permission.HasRequiredClaims w tok = true) : tok.RegisteredClaims.ExpiresAt.isSome = true := by
+  cases he : tok.RegisteredClaims.ExpiresAt with
+  | some d => rfl
+  | none => simp [Gen.permission.HasRequiredClaims, he] at h
+
+/-- the connection token the handler mints for a granted request -/
+def mintedToken (target : String) (b : Bearer) (id : String) : Gen.permission.Token :=
+  { BookingID := b.bid, Topic := id, ConnectionType := b.pfx, Scopes := b.scopes,
+    RegisteredClaims := { Audience := [target], ExpiresAt := some { unix := b.exp.getD 0 }, NotBefore := some { unix := b.nbf.getD 0 },
+                          IssuedAt := some { unix := b.iat.getD 0 } } }
+
+/-- … carries exactly what the model's `sessionGrant` puts into its `PTok` -/
+theorem mintedToken_as_model (cfg : Access.Config) (s : Access.St) (b : Bearer) (id : String) :
+    let pt := mintedToken cfg.target b id
+    let m := (sessionGrant cfg s b id).1.ptoks.getLast?
+    m = some { topic := pt.Topic, pfx := pt.ConnectionType, bid := pt.BookingID, scopes := pt.Scopes,
+               iat := (pt.RegisteredClaims.IssuedAt.getD default).unix, nbf := (pt.RegisteredClaims.NotBefore.getD default).unix,
+               exp := (pt.RegisteredClaims.ExpiresAt.getD default).unix, aud := pt.RegisteredClaims.Audience } := by
+  simp [sessionGrant, mintedToken]
+
+structure SessCfgOk (name : Nat → String) (gcfg : Gen.access.Config) (cfg : Access.Config) (reg : Deny.Reg) (codes : TtlCode.Store) : Prop where
+  stores : CfgOk name gcfg reg codes
+  nobid : gcfg.AllowNoBookingID = cfg.allowNoBid
+  target : gcfg.Target = cfg.target
+
+/-- refusals: the translated handler answers with the model's refusal status and touches nothing -/
+theorem sessionHandler_refusal (name : Nat → String) (w : Go.World) (gcfg : Gen.access.Config) (cfg : Access.Config) (s : Access.St)
+    (h : SessCfgOk name gcfg cfg s.reg s.codes) (b : Bearer) (id : String) (c : Nat)
+    (hr : sessionRefusal cfg s b id = some c) :
+    let r := Gen.access.sessionHandler w gcfg { SessionID := id } (prin b)
+    r.1.code = c ∧ r.2 = gcfg := by
+  obtain ⟨⟨hreg, hcodes⟩, hnobid, htarget⟩ := h
+  have hrc := hasRequiredClaims_tie w b
+  have hden : Gen.deny.Store.IsDenied w gcfg.DenyStore b.bid = Deny.isDenied s.reg b.bid := by rw [hreg]; rfl
+  simp only [sessionRefusal] at hr
+  simp only [Gen.access.sessionHandler, prin, Bool.not_true, Bool.false_eq_true, if_false, hrc]
+  by_cases h1 : hasRequiredClaims b = true
+  · simp only [h1, Bool.not_true, Bool.false_eq_true, if_false] at hr ⊢
+    by_cases h2 : (b.iat.isNone || b.nbf.isNone) = true
+    · simp only [h2, if_true] at hr
+      have : c = 401 := by injection hr with hr; exact hr.symm
+      subst this
+      cases hi : b.iat <;> cases hn : b.nbf <;> simp_all [claimsOf, Go.Resp.code]
+    · have h2' : (b.iat.isNone || b.nbf.isNone) = false := by
+        cases hx : (b.iat.isNone || b.nbf.isNone) with
+        | false => rfl
+        | true => exact absurd hx h2
+      simp only [h2', Bool.false_eq_true, if_false] at hr
+      have hi : b.iat.isSome = true := by cases hi : b.iat <;> simp_all
+      have hn : b.nbf.isSome = true := by cases hn : b.nbf <;> simp_all
+      obtain ⟨iv, hiv⟩ := Option.isSome_iff_exists.1 hi
+      obtain ⟨nv, hnv⟩ := Option.isSome_iff_exists.1 hn
+      simp only [claimsOf, hiv, hnv, Option.map_some, Option.isNone_some, Bool.or_self, Bool.false_eq_true, if_false]
+      by_cases h3 : b.topic = id
+      · simp only [h3, ne_eq, not_true_eq_false, if_false] at hr
+        by_cases hid : id = ""
+        · -- an empty session id cannot equal the (non-empty, by required claims) topic
+          subst hid
+          simp [hasRequiredClaims, h3] at h1
+        · simp only [hid, decide_false, Bool.false_eq_true, if_false, h3, decide_true, Bool.not_true]
+          by_cases h4 : (b.bid = "" ∧ (!cfg.allowNoBid) = true)
+          · simp only [h4, and_self, if_true] at hr
+            have : c = 400 := by injection hr with hr; exact hr.symm
+            subst this
+            simp [h4.1, hnobid, h4.2, Go.Resp.code]
+          · simp only [h4, if_false] at hr
+            have h4' : ((decide (b.bid = "")) && (!gcfg.AllowNoBookingID)) = false := by
+              rw [hnobid]
+              by_cases hb : b.bid = "" <;> simp_all
+            simp only [h4', Bool.false_eq_true, if_false, hden]
+            by_cases h5 : Deny.isDenied s.reg b.bid = true
+            · simp only [h5, if_true] at hr
+              have : c = 400 := by injection hr with hr; exact hr.symm
+              subst this
+              simp [h5, Go.Resp.code]
+            · simp [h5] at hr
+      · simp only [ne_eq, h3, not_false_eq_true, if_true] at hr
+        have : c = 401 := by injection hr with hr; exact hr.symm
+        subst this
+        by_cases hid : id = ""
+        · simp [hid, Go.Resp.code]
+        · simp [hid, h3, Go.Resp.code]
+  · have h1' : hasRequiredClaims b = false := by simpa using h1
+    simp only [h1', Bool.not_false, if_true] at hr
+    have : c = 401 := by injection hr with hr; exact hr.symm
+    subst this
+    simp [h1', Go.Resp.code]
+
+/-- grant: the translated handler notes the booking on the allow list until the token's expiry, mints exactly the model's
+    connection token, stores it under the next fresh code and answers 200 with the relay URI carrying that code -/
+theorem sessionHandler_grant (name : Nat → String) (hinj : Function.Injective name) (w : Go.World) (gcfg : Gen.access.Config)
+    (cfg : Access.Config) (s : Access.St) (h : SessCfgOk name gcfg cfg s.reg s.codes)
+    (hw : TieTtlCode.WorldOk name w s.codes) (hg : TieTtlCode.Good s.codes) (b : Bearer) (id : String)
+    (hr : sessionRefusal cfg s b id = none) :
+    let r := Gen.access.sessionHandler w gcfg { SessionID := id } (prin b)
+    let pt := mintedToken cfg.target b id
+    r.1 = .uri 200 (cfg.target ++ "/" ++ b.pfx ++ "/" ++ b.topic ++ "?code=" ++ name s.codes.next) ∧
+    SessCfgOk name r.2 cfg (Deny.step s.reg (.allow b.bid (b.exp.getD 0))) (TtlCode.step s.codes (.submit b.bid (Go.tokenId pt))).1 := by
+  obtain ⟨⟨hreg, hcodes⟩, hnobid, htarget⟩ := h
+  have hrc := hasRequiredClaims_tie w b
+  have hden : Gen.deny.Store.IsDenied w gcfg.DenyStore b.bid = Deny.isDenied s.reg b.bid := by rw [hreg]; rfl
+  simp only [sessionRefusal] at hr
+  -- unpack the refusal cascade: every guard is passed
+  by_cases h1 : hasRequiredClaims b = true
+  · simp only [h1, Bool.not_true, Bool.false_eq_true, if_false] at hr
+    by_cases h2 : (b.iat.isNone || b.nbf.isNone) = true
+    · simp [h2] at hr
+    · have h2' : (b.iat.isNone || b.nbf.isNone) = false := by
+        cases hx : (b.iat.isNone || b.nbf.isNone) with
+        | false => rfl
+        | true => exact absurd hx h2
+      simp only [h2', Bool.false_eq_true, if_false] at hr
+      by_cases h3 : b.topic = id
+      · simp only [h3, ne_eq, not_true_eq_false, if_false] at hr
+        by_cases h4 : (b.bid = "" ∧ (!cfg.allowNoBid) = true)
+        · simp [h4] at hr
+        · simp only [h4, if_false] at hr
+          by_cases h5 : Deny.isDenied s.reg b.bid = true
+          · simp [h5] at hr
+          · have hi : b.iat.isSome = true := by cases hi : b.iat <;> simp_all
+            have hn : b.nbf.isSome = true := by cases hn : b.nbf <;> simp_all
+            obtain ⟨iv, hiv⟩ := Option.isSome_iff_exists.1 hi
+            obtain ⟨nv, hnv⟩ := Option.isSome_iff_exists.1 hn
+            have he : b.exp.isSome = true := by
+              cases hx : b.exp with
+              | some v => rfl
+              | none => simp [hasRequiredClaims, hx] at h1
+            obtain ⟨ev, hev⟩ := Option.isSome_iff_exists.1 he
+            have hid : ¬ id = "" := by
+              intro hid; subst hid
+              simp [hasRequiredClaims, h3] at h1
+            have h4' : ((decide (b.bid = "")) && (!gcfg.AllowNoBookingID)) = false := by
+              rw [hnobid]
+              by_cases hb : b.bid = "" <;> simp_all
+            have h5' : Deny.isDenied s.reg b.bid = false := by simpa using h5
+            have hsub := TieTtlCode.submit_tie hinj w s.codes hw hg b.bid (Go.tokenId (mintedToken cfg.target b id))
+            simp only [Gen.access.sessionHandler, prin, Bool.not_true, Bool.false_eq_true, if_false, hrc, h1]
+            have hb1 : (claimsOf b).BookingID = b.bid := rfl
+            simp only [hb1, hden, h5', Bool.false_eq_true, if_false]
+            simp only [claimsOf, hiv, hnv, hev, Option.map_some, Option.isNone_some, Bool.or_self, hid, decide_false, h3, decide_true, h4',
+              Bool.not_true, Bool.false_eq_true, if_false, Go.deref, Option.getD_some, Gen.permission.NewToken, Gen.permission.Token.SetBookingID,
+              Go.submitToken, htarget, hcodes, hreg]
+            have hpt : ({ BookingID := b.bid, Topic := id, ConnectionType := b.pfx, Scopes := b.scopes,
+                           RegisteredClaims := { Audience := [cfg.target], ExpiresAt := some { unix := ev }, NotBefore := some { unix := nv },
+                                                 IssuedAt := some { unix := iv } } } : Gen.permission.Token) = mintedToken cfg.target b id := by
+              simp [mintedToken, hiv, hnv, hev]
+            refine ⟨?_, ⟨?_, ?_⟩, hnobid, rfl⟩
+            · simp only [hpt] at hsub ⊢
+              rw [hsub]
+            · exact TieDeny.allow_tie w s.reg b.bid ev
+            · simp only [hpt] at hsub ⊢
+              rw [hsub]
+      · simp [h3] at hr
+  · have h1' : hasRequiredClaims b = false := by simpa using h1
+    simp [h1'] at hr
+
 theorem coverage : Gen.access.untranslated = [] ∧
-    Gen.access.translated = ["allowHandler", "claimsCheck", "denyHandler", "hasStatsScope", "isRelayAdmin", "listAllowedHandler", "listDeniedHandler"] ∧
-    Gen.permission.untranslated.map (·.1) = ["NewToken"] ∧ Gen.permission.translated = ["HasRequiredClaims", "Token.SetBookingID"] := by
+    Gen.access.translated = ["allowHandler", "claimsCheck", "denyHandler", "hasStatsScope", "isRelayAdmin", "listAllowedHandler", "listDeniedHandler",
+      "sessionHandler"] ∧
+    Gen.permission.untranslated = [] ∧ Gen.permission.translated = ["HasRequiredClaims", "NewToken", "Token.SetBookingID"] := by
   decide
 
 end TieAccess
